@@ -848,12 +848,72 @@ pub fn masked_window(emu: &mut Emu, tcora: u8, chunks: u32) -> Result<(u64, u64)
     Ok((n, totals[0][36]))
 }
 
+/// The empty history: a `Cpu` as `Cpu::new()` makes it. Whatever TCR reads there, the counter does what the statement
+/// says for that value - it counts at the selected divisor, or not at all when no clock is selected (power-on register
+/// contents that disagree with the timer's own state are a timer that ignores its control register).
+fn power_on() -> Option<String> {
+    let r = guarded(|| {
+        let mut cpu = crate::cpu::Cpu::new();
+        let tcr = cpu.bus.read(0xffff80).map_err(|e| e.to_string())?;
+        let t0 = cpu.bus.read(0xffff88).map_err(|e| e.to_string())?;
+        let elapsed: u32 = 3 * 8192 + 77;
+        let mut left = elapsed;
+        while left > 0 {
+            let c = left.min(200);
+            hooks::update_modules(&mut cpu, c as u8).map_err(|e| e.to_string())?;
+            left -= c;
+        }
+        let t1 = cpu.bus.read(0xffff88).map_err(|e| e.to_string())?;
+        let adv = t1.wrapping_sub(t0) as u32;
+        // a compare match with counter clear would reset the count: only judged when TCR selects no clear source
+        let div = match tcr & 7 {
+            0 => 0,
+            1 => 8,
+            2 => 64,
+            3 => 8192,
+            _ => return Ok(()),
+        };
+        if div == 0 {
+            if adv != 0 {
+                return Err(format!("fresh Cpu: TCR reads {:02x} (no clock selected) but TCNT went from {:02x} to {:02x} in {} states", tcr, t0, t1, elapsed));
+            }
+        } else if tcr & 0x18 == 0 {
+            let lo = (elapsed / div) % 256;
+            let hi = (elapsed / div + 1) % 256;
+            if adv != lo && adv != hi {
+                return Err(format!("fresh Cpu: TCR reads {:02x} (clock / {}) but TCNT advanced by {} in {} states (expected {} or {})", tcr, div, adv, elapsed, lo, hi));
+            }
+        }
+        Ok(())
+    });
+    match r {
+        Ok(Ok(())) => None,
+        Ok(Err(m)) => Some(m),
+        Err(p) => Some(format!("panic: {}", p)),
+    }
+}
+
 pub fn run(ctx: &Ctx) -> i32 {
     if let Some(v) = &ctx.replay {
         if let Some(code) = replay_fuzz(P, v) {
             return code;
         }
         let case = v.get("case").unwrap_or(v);
+        if case.get("kind").and_then(|k| k.as_str()) == Some("timer-power-on") {
+            return match power_on() {
+                None => {
+                    println!("replay {}: power-on state passes", P);
+                    0
+                }
+                Some(m) => {
+                    let f = Failure { signature: "timer power-on state".into(), detail: m, case: case.clone() };
+                    let p = write_replay(P, &f);
+                    println!("VIOLATION property={} replay={}", P, p.display());
+                    println!("  detail: {}", f.detail);
+                    1
+                }
+            };
+        }
         if case.get("kind").and_then(|k| k.as_str()) == Some("timer-masked-window") {
             let mut emu = Emu::new(&ctx.base);
             let (t, c) = (case.get("tcora").and_then(|c| c.as_u64()).unwrap_or(1) as u8, case.get("chunks").and_then(|c| c.as_u64()).unwrap_or(400) as u32);
@@ -907,6 +967,12 @@ pub fn run(ctx: &Ctx) -> i32 {
     let tier = ctx.tier;
     let nh: u32 = tier.pick(300_000, 8_000_000);
     let nshards = 64usize;
+    let mut pstats = Stats::new();
+    pstats.evaluations += 1;
+    pstats.class("power-on: the counter follows whatever TCR reads on a fresh Cpu");
+    if let Some(m) = power_on() {
+        pstats.fail(Failure { signature: "timer power-on state".into(), detail: m, case: json!({"kind": "timer-power-on"}) });
+    }
     let mut stats = par_shards(ctx, nshards, |shard| {
         let w = Worker::new(ctx);
         let ent = entropy_n(1400);
@@ -976,6 +1042,7 @@ pub fn run(ctx: &Ctx) -> i32 {
         st
     });
     stats.merge(mstats);
+    stats.merge(pstats);
     // long runs across the accumulator-width boundaries (quick: /8192 and /64; thorough: also /8)
     let divs: Vec<u8> = if tier == Tier::Thorough { vec![3, 2, 1] } else { vec![3, 2] };
     let lstats = par_shards(ctx, divs.len(), |i| {
